@@ -75,6 +75,8 @@ pub enum Tr {
     Zero,
     /// 2^61: far beyond anything appended
     Far,
+    /// the second to last retained record: everything but the newest record is evicted
+    Penult,
 }
 
 #[derive(Clone, Debug, PartialEq, Eq, Hash, serde::Serialize, serde::Deserialize)]
@@ -184,6 +186,13 @@ impl Resolver {
                             Tr::Beyond => last + 3,
                             Tr::Zero => 0,
                             Tr::Far => 1u64 << 61,
+                            Tr::Penult => {
+                                if mq.recs.len() >= 2 {
+                                    mq.recs[mq.recs.len() - 2].0
+                                } else {
+                                    first.saturating_sub(1)
+                                }
+                            }
                         }
                     }
                 };
@@ -202,23 +211,34 @@ pub const QZ: u8 = 2;
 pub const QF: u8 = 3;
 
 thread_local! {
-    static LONG_NAMES: std::cell::Cell<bool> = const { std::cell::Cell::new(false) };
+    static NAME_SET: std::cell::Cell<u8> = const { std::cell::Cell::new(0) };
 }
 
 /// While set (per thread), queue "a" carries a name longer than a block (the maximum, 65535
 /// bytes, in the real geometry): its control entries span several frames.
 pub fn set_long_names(on: bool) {
-    LONG_NAMES.with(|l| l.set(on));
+    NAME_SET.with(|l| l.set(if on { 1 } else { 0 }));
+}
+
+/// Name sets 2 and 3: the never-created queue (index 2) carries a name that is too long for the
+/// 16-bit length prefix of the WAL entries - 65536 x 'x' (wraps to the empty name, which queue a
+/// carries) in set 2; "x" followed by 32768 two-byte characters (65537 bytes, 32769 chars; wraps to
+/// "x", the name of queue a) in set 3. Set 0 restores the default.
+pub fn set_name_set(n: u8) {
+    NAME_SET.with(|l| l.set(n));
 }
 
 pub fn default_names() -> Vec<String> {
-    if LONG_NAMES.with(|l| l.get()) {
-        let long = if TINY { "N".repeat(BLOCK + 6) } else { "N".repeat(65535) };
-        let mut v: Vec<String> = vec![long, "b".into(), "zz".into(), "f".into()];
-        v.extend((0..NUM_EXTRA_QUEUES).map(|i| format!("q{:02}", i)));
-        return v;
-    }
-    let mut v: Vec<String> = vec!["a".into(), "b".into(), "zz".into(), "f".into()];
+    let set = NAME_SET.with(|l| l.get());
+    let mut v: Vec<String> = match set {
+        1 => {
+            let long = if TINY { "N".repeat(BLOCK + 6) } else { "N".repeat(65535) };
+            vec![long, "b".into(), "zz".into(), "f".into()]
+        }
+        2 => vec![String::new(), "b".into(), "x".repeat(65536), "f".into()],
+        3 => vec!["x".into(), "b".into(), format!("x{}", "\u{e9}".repeat(32768)), "f".into()],
+        _ => vec!["a".into(), "b".into(), "zz".into(), "f".into()],
+    };
     v.extend((0..NUM_EXTRA_QUEUES).map(|i| format!("q{:02}", i)));
     v
 }
@@ -339,6 +359,7 @@ pub fn a_roll() -> Vec<Op> {
     let mut v = a_core();
     v.push(Op::app(QA, Pos::Auto, Sz::XL));
     v.push(Op::app(QB, Pos::Auto, Sz::XL));
+    v.push(Op::Trunc { q: QA, at: Tr::Penult });
     v
 }
 
@@ -434,5 +455,14 @@ pub fn a_shapes() -> Vec<Op> {
     v.push(Op::Append { q: QB, pos: Pos::Gap, sizes: vec![Sz::S0, Sz::S1] });
     v.push(Op::app(QZ, Pos::Auto, Sz::S3));
     v.push(Op::Trunc { q: QZ, at: Tr::Zero });
+    v
+}
+
+/// A_shapes plus creation / deletion of the queue with index 2 (run with the name sets in which that
+/// name is longer than 65535 bytes).
+pub fn a_shapes_oversize() -> Vec<Op> {
+    let mut v = a_shapes();
+    v.push(Op::Create(QZ));
+    v.push(Op::Delete(QZ));
     v
 }
